@@ -91,12 +91,38 @@ Fixpoint chk_from (s : state) (evs : list event) : list Z :=
   | e :: r => let s1 := fst (step s e) in chk s1 ++ chk_from s1 r
   end.
 
+(* ---- canonical order inside one step: cancellations of requests / delayed calls, consumer stop() calls and the coordinator-metadata
+   reset issued by ONE step are independent statements of the code (no observer sits between them); a maximal run of them is sorted,
+   so that reordering those statements is not reported as a difference.  Everything else keeps its place. ---- *)
+Definition commuting (o : output) : bool :=
+  match o with OCancelTimer _ _ | OCancelReq _ | OReset | OStopC _ => true | _ => false end.
+Fixpoint lex_leb (a b : list Z) : bool :=
+  match a, b with
+  | [], _ => true
+  | _ :: _, [] => false
+  | x :: a', y :: b' => if x <? y then true else if y <? x then false else lex_leb a' b'
+  end.
+Fixpoint insert_out (o : output) (l : list output) : list output :=
+  match l with
+  | [] => [o]
+  | x :: r => if lex_leb (enc_out o) (enc_out x) then o :: l else x :: insert_out o r
+  end.
+Definition sort_outs (l : list output) : list output := fold_right insert_out [] l.
+Fixpoint canon_from (run : list output) (l : list output) : list output :=
+  match l with
+  | [] => sort_outs run
+  | o :: r => if commuting o then canon_from (o :: run) r else sort_outs run ++ o :: canon_from [] r
+  end.
+Definition canon_step (l : list output) : list output := canon_from [] l.
+Definition enc_trace_canon (os : list (list output)) : list Z :=
+  flat_map (fun o => (-1) :: flat_map enc_out (canon_step o)) os.
+
 Definition run_case (c : list Z) : list Z :=
   match c with
   | k :: r =>
       if (k =? 0) || (k =? 1) then
         match parse_events (length r) r with
-        | Some evs => enc_trace (snd (run (k =? 1) evs))      (* = Model.Group.run_case c *)
+        | Some evs => enc_trace_canon (snd (run (k =? 1) evs))      (* Model.Group.run_case c with each step's outputs in canonical order *)
         | None => [-99]
         end
       else if (2 <=? k) && (k <=? 5) then
